@@ -78,6 +78,8 @@ def run(tier, seed, deep, hints):
         findings.append({"what": f"{case['kind']} cap={case['cap']} b={case['b']} swaps={case['swaps']} auto={case['auto']} rate={case['rate']}: {bad2}", "case": case, "signature": sig})
 
     for _ in range(n_script):
+        if core.search_expired():
+            break
         case = gen_case(rng, tiny=True, reload=False)
         case.pop("seed", None)
         res, runs = all_scripts(case, check, alphabet=max(2, case["b"]), limit=400 if tier == "quick" else 3000)
@@ -89,6 +91,8 @@ def run(tier, seed, deep, hints):
             if len(findings) >= 3:
                 break
     for _ in range(n_seeded):
+        if core.search_expired():
+            break
         if len(findings) >= 3:
             break
         case = gen_case(rng, tiny=rng.random() < 0.5, reload=False)
